@@ -320,7 +320,7 @@ func execWriterFlame(args []string, lines [][]string) []string {
 	return outs
 }
 
-var writerCodes = []int{100, 200, 201, 204, 301, 404, 500, 999}
+var writerCodes = []int{100, 101, 103, 199, 200, 201, 204, 301, 404, 500, 999}
 
 func writerOp(r *rand.Rand, hook *int) string {
 	switch k := r.Intn(20); {
